@@ -278,6 +278,25 @@ def h_chunks(ctx, cfg):
     ctx.prove(a == b, "struct-and-array-strategies-agree", "bytes differ")
 
 
+def h_chunks_two_orders(ctx, cfg):
+  """Successive calls with the same size/format but different byte orders each honour their own byte order."""
+  dfmt = cfg["dfmt"]; size = cfg["size"]
+  if ctx.mode == "sym": ch = _sym_io_module()["chunks"]
+  else:
+    from audiolazy import chunks as ch
+  lim = {"h": 32767, "i": 2 ** 31 - 1}[dfmt]
+  seq = [ctx.int("e%d" % i, -lim - 1, lim) for i in range(size)]
+  native = "<" if sys.byteorder == "little" else ">"
+  for strat in ("struct", "array"):
+    for bo in cfg["orders"]:
+      out = list(ch[strat](list(seq), size=size, dfmt=dfmt, byte_order=bo, padval=0))
+      ctx.prove(len(out) == 1, strat + ":one-chunk")
+      vals, eff, body = _decode(out[0], size, dfmt, bo)
+      want_eff = {None: native, "<": "<", ">": ">", "!": ">", "=": native, "@": native}[bo]
+      ctx.prove(eff == want_eff, strat + ":byte-order-honoured-on-every-call", "call with %r gave %r" % (bo, eff))
+      ctx.prove(And(*[ctx.eq(a, b) for a, b in zip(vals, seq)]), strat + ":values-decode-with-the-requested-order", "order %r" % (bo,))
+
+
 def h_chunks_default_size(ctx, cfg):
   """size=None uses chunks.size (class attribute, 2048)."""
   if ctx.mode == "sym":
@@ -306,4 +325,7 @@ def tasks(tier, seed):
     for bo in ("default", None, "<", ">", "!", "=", "@"):
       T.append(("h_chunks", {"dfmt": dfmt, "byte_order": bo, "L": 8 if big else 5, "S": 4 if big else 3}))
   T.append(("h_chunks_default_size", {}))
+  for dfmt in "hi":
+    for orders in (["<", ">", "<"], [">", "<"], ["!", None, ">"], [None, ">", "="]):
+      T.append(("h_chunks_two_orders", {"dfmt": dfmt, "size": 2, "orders": orders}))
   return T
